@@ -15,6 +15,7 @@ def all_datagrams(maxlen, alphabet):
 
 class C09(C01):
     ident = "C09"
+    extra_bins = ("c09port",)
     technique = "Coq proof: classification total, monitor never reaches the internal-error path, TID non-interference; extracted-model correspondence"
     rule = ("transfer part: every datagram of length <= 4 (quick) / 5 (thorough) over {0,1,2,3,4,5,6,8,9,0x61,0xff} injected from "
             "the peer and from a foreign address at three points of a transfer (OACK outstanding, first block outstanding, last "
@@ -59,6 +60,11 @@ class C09(C01):
 
     def nontrivial(self, c, obs):
         return (tuple(c["events"]), tuple(c["options"]))
+
+    def extra_checks(self, tier, rng, report):
+        # request-port half: real TftpServer._process_request vs the extracted port model
+        import c09_port
+        c09_port.port_checks(tier, rng, report)
 
 
 if __name__ == "__main__":
